@@ -268,6 +268,9 @@ func workerScratch() string {
 	// every disk run happens below a directory whose name contains look-alikes of the set extensions: a path built by
 	// replacing the first ".par" / ".par2" / ".vol" of the whole path instead of the file's own extension goes astray here
 	d = filepath.Join(d, "w.par.par2.p01.vol00+01.PAR2.d")
+	// ... and below a directory whose name is made of pattern metacharacters: whatever part of a path is handed to a
+	// pattern matcher, the directories on the way to the set are names, not patterns
+	d = filepath.Join(d, "[set] a*b?c\\d {x,y}")
 	os.MkdirAll(d, 0755)
 	return d
 }
